@@ -131,22 +131,33 @@ where
 
     /// Write back a block you read with [`Self::read_mut`] and then modified.
     pub fn write_back(&mut self) -> Result<(), D::Error> {
-        self.block_device.write(
+        let result = self.block_device.write(
             &self.block,
             self.block_idx.expect("write_back with no read"),
-        )
+        );
+        if result.is_err() {
+            // The medium does not hold these contents: do not serve them to
+            // later reads of this block as if it did.
+            self.block_idx = None;
+        }
+        result
     }
 
     /// Write back a block you read with [`Self::read_mut`] and then modified, but to two locations.
     ///
     /// This is useful for updating two File Allocation Tables.
     pub fn write_back_with_duplicate(&mut self, duplicate: BlockIdx) -> Result<(), D::Error> {
-        self.block_device.write(
-            &self.block,
-            self.block_idx.expect("write_back with no read"),
-        )?;
-        self.block_device.write(&self.block, duplicate)?;
-        Ok(())
+        let block_idx = self.block_idx.expect("write_back with no read");
+        let result = self
+            .block_device
+            .write(&self.block, block_idx)
+            .and_then(|_| self.block_device.write(&self.block, duplicate));
+        if result.is_err() {
+            // The medium does not (fully) hold these contents: do not serve
+            // them to later reads of this block as if it did.
+            self.block_idx = None;
+        }
+        result
     }
 
     /// Access a blank sector
